@@ -634,12 +634,14 @@ def loadFile (fuel : Nat) (env : Env) (acc : Top) (doc : Y) : Res (Top × List Y
 
 /-! ### the static passes of `generate` that run before the first row -/
 
-/-- `merge_options` with no user options -/
+/-- `merge_options` with no user options: `name in user_options` hashes the name; a *declared*
+    default (`"default" in option`, whatever its value: `0`, `false`, `null`, `""` included) is a
+    default -/
 def checkOption (o : KVs) : Res Unit :=
   match lookup o "option" with
   | some v =>
-    if !v.hashable then .stuck .optionUnhashable             -- user_options.get(name)
-    else if getTruthy o "default" then pure ()
+    if !v.hashable then .stuck .optionUnhashable             -- name in user_options
+    else if (lookup o "default").isSome then pure ()
     else .recipeError .name                                  -- "No definition supplied for option"
   | none => .recipeError .name
 
